@@ -47,6 +47,8 @@ class C17(core.Check):
         cs += [("chunks", b"3\r\nabcd\r\n0\r\n\r\n", ()), ("chunks", b"3;a=b;c\r\nabc\r\n0\r\nX: y\r\n\r\nrest", (2, 9)),
                ("enc", b"a\r\nb\r\n\r\n0\r\n\r\n", (1, 4), (b";x", b" ; y = 2"), ((b"T", b"v"), (b"U", b"w w")), ()),
                ("enc", b"", (), (), (), ()), ("enc", b"x" * 300, (255, 16), (), (), (5, 6, 7)),
+               ("enc", b"abcdef", (2, 2), (), ((b"T", b"v"),), (), (1, 2, 0, 1)),      # "02" "002" "2" then last chunk "00" + trailer
+               ("enc", b"", (), (b";x",), ((b"T", b"v"), (b"U", b"w")), (), (3,)), ("enc", b"q", (), (), (), (), (0, 7)),
                ("pack", (b"hello", b"\r\n", b"x" * 26), (4, 9)), ("pack", (), ())]
         cs += self._boundary_cases(None, big=False)
         return cs
@@ -81,8 +83,9 @@ class C17(core.Check):
                 exts = tuple(rng.choice([b"", b"", b";a", b";a=b", b" ; n = v ", b";a=1;b=2;a=3", b";q=\"s t\"", b";", b";;x"]) for _ in range(rng.randrange(0, 5)))
                 names = rng.sample([b"T", b"U", b"X-A", b"x-b", b"Etag"], rng.randrange(0, 4))
                 trailers = tuple((nm, rng.choice([b"v", b"w w", b"1: 2", b"\xe9"])) for nm in names)
-                w, _ = hp.enc_wire(body, sizes, exts, trailers)
-                yield ("enc", body, sizes, exts, trailers, hp.cuts_for(rng, w))
+                pads = tuple(rng.choice([0, 0, 1, 2, 7]) for _ in range(rng.randrange(0, 7)))     # leading zeros, the last chunk too
+                w, _ = hp.enc_wire(body, sizes, exts, trailers, pads)
+                yield ("enc", body, sizes, exts, trailers, hp.cuts_for(rng, w), pads)
             elif k < 0.6:    # packChunk's own output, several chunks then the terminator
                 small = [n for n in hp.boundary_sizes() if 0 < n <= 4097]
                 bigs = [n for n in hp.boundary_sizes() if n > 4097]
@@ -125,6 +128,7 @@ class C17(core.Check):
     def compare_view(self, case, obs):
         return sx.dumps(hp.view_of(case, obs))
 
+    @hp.total
     def oracle(self, case, obs):
         bad = []
         if case[0] == "wsgi":
@@ -136,8 +140,8 @@ class C17(core.Check):
             bad.append("exception-escaped")
         out, status = cut
         if case[0] == "enc":
-            _, body, sizes, exts, trailers, _ = case
-            w, chunks = hp.enc_wire(body, sizes, exts, trailers)
+            body, sizes, exts, trailers = case[1:5]
+            w, chunks = hp.enc_wire(body, sizes, exts, trailers, case[6] if len(case) > 6 else ())
             if status[0] != "done":
                 bad.append("encoding-not-decoded")
             else:
@@ -199,11 +203,13 @@ class C17(core.Check):
             bad.append("leftover-after-last-chunk")
         return bad
 
+    @hp.safe(True)
     def nontrivial(self, case, obs):
         if case[0] == "wsgi":
             return len(obs[0][0]) >= 1
         return len(obs[-2][0]) >= 1 or obs[-2][1][0] == "err"
 
+    @hp.safe(list)
     def features(self, case, obs):
         if case[0] == "wsgi":
             return ["wsgi", f"pieces:{min(len(case[1]), 4)}"] + [f"piece-size:{self._bucket(len(p))}" for p in case[1]]
@@ -235,6 +241,7 @@ class C17(core.Check):
     def shrink(self, case):
         return hp.shrink_case(case)
 
+    @hp.safe(list)
     def mutate(self, rng, case):
         return list(hp.shrink_case(case))[:40]
 
